@@ -16,9 +16,9 @@
      holds <hex>        -> true|false   (c03_holds_on)
      holds14 <hex>      -> true|false   (c14_holds_on)
    rune level (Lib/Utf8.v) next to the byte level (Lib/Bytes.v):
-     u8 <hex>           -> D <r> <w>|L <r> <w>|TL <hex>|TR <hex>|T <hex>|TB <hex>|V <bool>|VB <bool>
+     u8 <hex>           -> D <r> <w>|L <r> <w>|TL <hex>|TR <hex>|T <hex>|TB <hex>|TF <hex>|V <bool>|VB <bool>
                            (DecodeRune, DecodeLastRune, TrimLeftFunc, TrimRightFunc, TrimSpace by runes,
-                            trim_space of Bytes.v, runes_ok, utf8_valid of Bytes.v)
+                            trim_space of Bytes.v, TrimFunc as the Go code computes it (Utf8Trim.v), runes_ok, utf8_valid of Bytes.v)
      u8sweep <hex> <n>  -> md5 of the u8 lines of all strings <hex> ++ (n arbitrary bytes), n = 1|2,
                            in increasing order, each line followed by \n
      spaces <lo> <hi>   -> the code points r in [lo,hi) with is_space_rune r, separated by ','
@@ -50,6 +50,7 @@ let u8_line (x : byte list) =
     "D " ^ show_dec (decode_rune x); "L " ^ show_dec (decode_last_rune x);
     "TL " ^ hex_of_bytes (trim_left_runes x); "TR " ^ hex_of_bytes (trim_right_runes x);
     "T " ^ hex_of_bytes (trim_space_runes x); "TB " ^ hex_of_bytes (trim_space x);
+    "TF " ^ (match trim_func x with Some t -> hex_of_bytes t | None -> "FAIL");
     "V " ^ string_of_bool (runes_ok x); "VB " ^ string_of_bool (utf8_valid x) ]
 let u8_sweep (pre : byte list) (n : int) =
   let b = Buffer.create (1 lsl 20) in
